@@ -839,7 +839,17 @@ func TestVerifC16(t *testing.T) {
 		}
 		effCode := func(i int) string { return c16Effects[i].code }
 		var notJudged, nA int64
-		c.Parallel(len(casesA), func(l *vk.Local, i int) {
+		// simplest first: programs without prefix and suffix run sequentially
+		// before everything else, so that the shortest counterexample of a key
+		// is the one reported
+		sort.SliceStable(casesA, func(i, j int) bool {
+			return len(casesA[i].pre)+len(casesA[i].suf) == 0 && len(casesA[j].pre)+len(casesA[j].suf) != 0
+		})
+		nSimple := 0
+		for nSimple < len(casesA) && len(casesA[nSimple].pre)+len(casesA[nSimple].suf) == 0 {
+			nSimple++
+		}
+		runA := func(l *vk.Local, i int) {
 			if c.TimeUp() {
 				c.Capped("time budget reached in family A")
 				return
@@ -878,7 +888,13 @@ func TestVerifC16(t *testing.T) {
 					c.Sample(src)
 				}
 			}
-		})
+		}
+		l0 := vk.NewLocal()
+		for i := 0; i < nSimple; i++ {
+			runA(l0, i)
+		}
+		c.Merge(l0)
+		c.Parallel(len(casesA)-nSimple, func(l *vk.Local, i int) { runA(l, i+nSimple) })
 		c.Set("familyA_programs", len(casesA))
 		c.Set("familyA_runs", nA)
 		c.Set("familyA_expectation_not_judged_programs", notJudged)
